@@ -96,4 +96,18 @@ theorem g_api_never_panics (grow : Nat → Nat → Nat) (e : Bytes) (L : List By
   · rw [g_extract_refines]; intro hc; cases hc
   · rw [g_validate_refines]; intro hc; cases hc
 
+/-! ### non-vacuity: the composition computes (kernel-evaluated, Go's doubling policy)
+
+The shape of defect D4 — a left-nested AND group of three terms (capacity 4, one spare slot) times two alternatives — with
+the allowed list covering the FIRST alternative, a re-cased entry, and the same list without the covering entry. -/
+private def d4shape : Bytes := str "((MIT AND ISC) AND Zlib) AND (0BSD OR W3C)"
+example : (match satisfiesG H.growDouble d4shape [str "MIT", str "isc", str "Zlib", str "0BSD"] with
+    | .ok (.ok true) => true | _ => false) = true := by decide +kernel
+example : (match satisfiesG H.growDouble d4shape [str "MIT", str "isc", str "Zlib"] with
+    | .ok (.ok false) => true | _ => false) = true := by decide +kernel
+example : (match satisfiesG H.growDouble d4shape [str "MIT", str "MIT AND ISC"] with
+    | .ok (.error .compoundEntry) => true | _ => false) = true := by decide +kernel
+example : (match extractFullG H.growDouble d4shape with
+    | .ok (some l) => l.length == 5 | _ => false) = true := by decide +kernel
+
 end Spdx.C03
